@@ -100,7 +100,23 @@ pub fn generate(t: &mut Tape, o: &ModelOpts) -> Model {
     // guaranteed basis so that every reference kind can be satisfied
     kinds.push(K::Str);
     kinds.push(K::Method);
-    for _ in 0..n {
+    // a huge pool cannot be driven by a tape of a few hundred bytes: its bulk follows a
+    // deterministic pattern salted by the tape, and only a prefix is tape-driven
+    let salt = if huge { crate::tape::mix(((t.byte() as u64) << 8) | t.byte() as u64) } else { 0 };
+    let bulk = if huge { n - 40 } else { 0 };
+    for i in 0..bulk {
+        let h = crate::tape::mix(salt ^ (i as u64).wrapping_mul(0x9E37_79B9));
+        kinds.push(match h % 64 {
+            0..=39 => K::Int,
+            40..=43 => K::Null,
+            44..=47 => K::Bool,
+            48..=53 => K::Str,
+            54..=59 => K::Slot,
+            60..=62 => K::Class,
+            _ => K::Method,
+        });
+    }
+    for _ in 0..(n - bulk) {
         kinds.push(match t.weighted(&if huge { [200, 20, 6, 1, 8, 4, 16] } else { [6, 2, 8, if big { 1 } else { 4 }, 3, 2, 2] }) {
             0 => K::Int,
             1 => K::Null,
@@ -127,7 +143,24 @@ pub fn generate(t: &mut Tape, o: &ModelOpts) -> Model {
     let classes = idx_of(&|k| k == K::Class);
     let methods = idx_of(&|k| k == K::Method);
 
-    let pick = |t: &mut Tape, v: &Vec<u16>| -> u16 { v[t.pick(v.len())] };
+    let counter = std::cell::Cell::new(0u64);
+    let pick = |t: &mut Tape, v: &Vec<u16>| -> u16 {
+        if huge && t.exhausted() {
+            // tape exhausted long ago: derive the choice from a counter, half of the time from
+            // the top end of the candidates (indices with the high bit set)
+            let c = counter.get();
+            counter.set(c + 1);
+            let h = crate::tape::mix(salt ^ c.wrapping_mul(0xD134_2543_DE82_EF95));
+            let len = v.len();
+            if h & 1 == 0 {
+                v[len - 1 - ((h >> 8) as usize % len.min(64))]
+            } else {
+                v[(h >> 8) as usize % len]
+            }
+        } else {
+            v[t.pick(v.len())]
+        }
+    };
     let mut consts = Vec::with_capacity(kinds.len());
     let mut big_method_done = false;
     for k in kinds.iter() {
@@ -153,6 +186,13 @@ pub fn generate(t: &mut Tape, o: &ModelOpts) -> Model {
                     t.weighted(&[1, 2, 2, 2, 2, 1, 1, 1, 1, 1, 1, 1, 1]) * (1 + t.pick(3))
                 };
                 let mut code = Vec::with_capacity(len);
+                if huge && t.exhausted() {
+                    // bulk methods of a huge pool: a little code whose operands are large indices
+                    code.push(Ins::Lit(pick(t, &lits)));
+                    code.push(Ins::Drop);
+                    code.push(Ins::GetGlobal(pick(t, &strs)));
+                    code.push(Ins::Return);
+                }
                 for _ in 0..len {
                     code.push(match t.pick(17) {
                         0 => Ins::Label(pick(t, &strs)),
